@@ -146,11 +146,15 @@ LiveSilence ==
   (<>[](mode = "silence")) =>
      \A p \in Ports :
         \/ <>[](st.so)
+        \/ <>[](st.pst[p] = "F")                   \* the property's exception: a port disabled by a peer-delay fault (silence brings no clean exchange)
+        \/ <>[](RecoveredOrphan(p))                \* the recorded finding: recovered from the fault into LISTENING without a receipt timer
         \/ (<>[](st.pst[p] = "M") /\ []<>(tog[p].ann = 0) /\ []<>(tog[p].ann = 1) /\ []<>(tog[p].sync = 0) /\ []<>(tog[p].sync = 1))
 \* slave-only instances end up listening with the receipt timer running
 LiveSilenceSlaveOnly ==
-  (<>[](mode = "silence" /\ st.so)) => \A p \in Ports : <>[](st.pst[p] = "L" /\ "rcpt" \in armed[p])
+  (<>[](mode = "silence" /\ st.so)) => \A p \in Ports : \/ <>[](st.pst[p] = "L" /\ "rcpt" \in armed[p])
+                                                          \/ <>[](st.pst[p] = "F") \/ <>[](RecoveredOrphan(p))
 LiveSteady ==
   (<>[](mode = "steady")) =>
-     (<>[](st.pst[1] = "S") /\ (PCfg[1].p2p \/ ([]<>(tog[1].dreq = 0) /\ []<>(tog[1].dreq = 1))))
+     \/ (<>[](st.pst[1] = "S") /\ (PCfg[1].p2p \/ ([]<>(tog[1].dreq = 0) /\ []<>(tog[1].dreq = 1))))
+     \/ <>[](st.pst[1] = "F")      \* disabled by a peer-delay fault and never offered a clean exchange
 =============================================================================
